@@ -128,4 +128,213 @@ theorem finish_sound (σ : Nat → Bool) (R : List P) (clauses : List (List P)) 
         simp only [hor, Option.some.injEq] at h; subst h
         simp only [P.truth, houter, orOf_truth σ _ o hor, hfm]
 
+/-! ### size of a predicate: the termination measure of the OR-rewrite -/
+
+def P.size : P → Nat
+  | .atom _ => 1
+  | .and a b => a.size + b.size
+  | .or a b => a.size + b.size
+
+def sizeL (l : List P) : Nat := (l.map P.size).sum
+
+theorem size_pos (p : P) : 0 < p.size := by
+  induction p with
+  | atom n => simp [P.size]
+  | and a b iha _ => simp only [P.size]; omega
+  | or a b iha _ => simp only [P.size]; omega
+
+theorem sizeL_append (a b : List P) : sizeL (a ++ b) = sizeL a + sizeL b := by simp [sizeL]
+theorem sizeL_cons (a : P) (l : List P) : sizeL (a :: l) = a.size + sizeL l := by simp [sizeL]
+
+theorem size_andComps (p : P) : p.size = sizeL (andComps p) := by
+  induction p with
+  | atom n => simp [andComps, sizeL, P.size]
+  | and a b iha ihb => simp [andComps, P.size, sizeL_append, iha, ihb]
+  | or a b _ _ => simp [andComps, sizeL]
+
+theorem size_orComps (p : P) : p.size = sizeL (orComps p) := by
+  induction p with
+  | atom n => simp [orComps, sizeL, P.size]
+  | or a b iha ihb => simp [orComps, P.size, sizeL_append, iha, ihb]
+  | and a b _ _ => simp [orComps, sizeL]
+
+theorem size_andFold (c : P) (cs : List P) : (andFold c cs).size = c.size + sizeL cs := by
+  induction cs generalizing c with
+  | nil => simp [andFold, sizeL]
+  | cons d ds ih => simp only [andFold, List.foldl_cons] at ih ⊢; rw [ih, sizeL_cons]; simp [P.size]; omega
+
+theorem size_orFold (c : P) (cs : List P) : (orFold c cs).size = c.size + sizeL cs := by
+  induction cs generalizing c with
+  | nil => simp [orFold, sizeL]
+  | cons d ds ih => simp only [orFold, List.foldl_cons] at ih ⊢; rw [ih, sizeL_cons]; simp [P.size]; omega
+
+theorem andOf_size (l : List P) (q : P) (h : andOf l = some q) : q.size = sizeL l := by
+  cases l with
+  | nil => simp [andOf] at h
+  | cons c cs => simp only [andOf, Option.some.injEq] at h; subst h; rw [size_andFold, sizeL_cons]
+
+theorem orOf_size (l : List P) (q : P) (h : orOf l = some q) : q.size = sizeL l := by
+  cases l with
+  | nil => simp [orOf] at h
+  | cons c cs => simp only [orOf, Option.some.injEq] at h; subst h; rw [size_orFold, sizeL_cons]
+
+theorem sizeL_filter_le (l : List P) (f : P → Bool) : sizeL (l.filter f) ≤ sizeL l := by
+  induction l with
+  | nil => simp [sizeL]
+  | cons a t ih => by_cases h : f a = true <;> simp [List.filter_cons, h, sizeL_cons] <;> omega
+
+theorem sizeL_filter_split (l : List P) (f : P → Bool) : sizeL l = sizeL (l.filter f) + sizeL (l.filter (fun x => !f x)) := by
+  induction l with
+  | nil => simp [sizeL]
+  | cons a t ih => by_cases h : f a = true <;> simp [List.filter_cons, h, sizeL_cons, ih] <;> omega
+
+theorem eraseDups_sizeL_nodup : ∀ (n : Nat) (l : List P), l.length ≤ n → sizeL l.eraseDups ≤ sizeL l ∧ l.eraseDups.Nodup := by
+  intro n
+  induction n with
+  | zero => intro l h; have : l = [] := List.length_eq_zero_iff.mp (by omega); subst this; simp [sizeL]
+  | succ n ih =>
+    intro l h
+    cases l with
+    | nil => simp [sizeL]
+    | cons a t =>
+      rw [List.eraseDups_cons]
+      have hlen : (t.filter (fun b => !b == a)).length ≤ n := by
+        have := List.length_filter_le (fun b => !b == a) t
+        simp only [List.length_cons] at h; omega
+      obtain ⟨h1, h2⟩ := ih _ hlen
+      constructor
+      · rw [sizeL_cons, sizeL_cons]
+        have := sizeL_filter_le t (fun b => !b == a)
+        omega
+      · rw [List.nodup_cons]
+        refine ⟨?_, h2⟩
+        rw [List.mem_eraseDups]
+        simp
+
+theorem sizeL_eraseDups_le (l : List P) : sizeL l.eraseDups ≤ sizeL l := (eraseDups_sizeL_nodup l.length l (Nat.le_refl _)).1
+theorem nodup_eraseDups (l : List P) : l.eraseDups.Nodup := (eraseDups_sizeL_nodup l.length l (Nat.le_refl _)).2
+
+/-- distinct shared conjuncts all occur in the clause: together they weigh no more than their occurrences there -/
+theorem sizeL_le_filter_mem : ∀ (R D : List P), R.Nodup → (∀ r ∈ R, r ∈ D) → sizeL R ≤ sizeL (D.filter (fun c => R.contains c)) := by
+  intro R
+  induction R with
+  | nil => intro D _ _; simp [sizeL]
+  | cons r R' ih =>
+    intro D hnd hsub
+    rw [List.nodup_cons] at hnd
+    have hsplit := sizeL_filter_split (D.filter (fun c => (r :: R').contains c)) (fun c => c == r)
+    rw [List.filter_filter, List.filter_filter] at hsplit
+    have h1 : r.size ≤ sizeL (D.filter (fun c => (c == r && (r :: R').contains c))) := by
+      have hr : r ∈ D := hsub r (by simp)
+      clear hsplit ih hsub
+      induction D with
+      | nil => cases hr
+      | cons d D' ihD =>
+        by_cases hd : d = r
+        · subst hd; simp [List.filter_cons, sizeL_cons]
+        · have : r ∈ D' := by simpa [Ne.symm hd] using hr
+          have hb : (d == r) = false := by simpa using hd
+          simp only [List.filter_cons, hb, Bool.false_and, Bool.false_eq_true, if_false]
+          exact ihD this
+    have h2 : D.filter (fun c => (!(c == r) && (r :: R').contains c)) = D.filter (fun c => (!(c == r) && R'.contains c)) := by
+      apply List.filter_congr
+      intro c _
+      by_cases hc : c = r
+      · simp [hc]
+      · simp [hc]
+    have h3 : sizeL R' ≤ sizeL (D.filter (fun c => (!(c == r) && R'.contains c))) := by
+      have := ih D hnd.2 (fun x hx => hsub x (by simp [hx]))
+      have heq : D.filter (fun c => R'.contains c) = D.filter (fun c => (!(c == r) && R'.contains c)) := by
+        apply List.filter_congr
+        intro c _
+        by_cases hc : c = r
+        · subst hc
+          have : R'.contains c = false := by simpa using hnd.1
+          simp [this]
+          exact hnd.1
+        · simp [hc]
+      rw [heq] at this
+      exact this
+    rw [sizeL_cons, hsplit, h2]
+    omega
+
+
+def keptOf (R : List P) (comp : List P) : List P := comp.filter (fun c => !R.contains c)
+
+theorem kept_bound (R comp : List P) (hR : R.Nodup) (hsub : ∀ r ∈ R, r ∈ comp) :
+    sizeL (keptOf R comp) + sizeL R ≤ sizeL comp := by
+  have h1 := sizeL_filter_split comp (fun c => R.contains c)
+  have h2 := sizeL_le_filter_mem R comp hR hsub
+  simp only [keptOf]
+  omega
+
+theorem kept_sum_bound (R : List P) (hR : R.Nodup) : ∀ (clauses : List (List P)), (∀ comp ∈ clauses, ∀ r ∈ R, r ∈ comp) →
+    ((clauses.map (keptOf R)).map sizeL).sum + clauses.length * sizeL R ≤ (clauses.map sizeL).sum := by
+  intro clauses
+  induction clauses with
+  | nil => intro _; simp
+  | cons c cs ih =>
+    intro hall
+    have h1 := kept_bound R c hR (hall c (by simp))
+    have h2 := ih (fun comp hc => hall comp (by simp [hc]))
+    simp only [List.map_cons, List.sum_cons, List.length_cons, Nat.add_mul, Nat.one_mul]
+    omega
+
+theorem sizeL_filterMap_andOf : ∀ (kept : List (List P)), (∀ k ∈ kept, k ≠ []) →
+    sizeL (kept.filterMap andOf) = (kept.map sizeL).sum := by
+  intro kept
+  induction kept with
+  | nil => intro _; rfl
+  | cons k ks ih =>
+    intro hne
+    have hk := hne k (by simp)
+    cases hk' : andOf k with
+    | none => cases k <;> simp_all [andOf]
+    | some qk =>
+      simp only [List.filterMap_cons, hk', sizeL_cons, List.map_cons, List.sum_cons, andOf_size k qk hk']
+      rw [ih (fun k' hk'' => hne k' (by simp [hk'']))]
+
+/-- whatever `finish` returns is smaller than the clauses it was built from, by at least the weight of the shared
+    conjuncts (every one of them occurred in each of the `≥ 2` clauses and now occurs once) -/
+theorem finish_size (R : List P) (clauses : List (List P)) (q : P) (hR : R.Nodup)
+    (hall : ∀ comp ∈ clauses, ∀ r ∈ R, r ∈ comp) (hlen : 2 ≤ clauses.length) (h : finish R clauses = some q) :
+    q.size + sizeL R ≤ (clauses.map sizeL).sum := by
+  have hsum := kept_sum_bound R hR clauses hall
+  have hn : 2 * sizeL R ≤ clauses.length * sizeL R := Nat.mul_le_mul_right _ hlen
+  unfold finish at h
+  cases hout : andOf R with
+  | none => simp [hout] at h
+  | some outer =>
+    simp only [hout] at h
+    have houter := andOf_size R outer hout
+    have hk : clauses.map (fun comp => comp.filter (fun c => !R.contains c)) = clauses.map (keptOf R) := rfl
+    rw [hk] at h
+    split at h
+    · simp only [Option.some.injEq] at h; subst h
+      omega
+    · rename_i hany
+      have hne' : ∀ k ∈ clauses.map (keptOf R), k ≠ [] := by
+        intro k hk hnil
+        apply hany
+        simp only [List.any_eq_true]
+        exact ⟨k, hk, by simp [hnil]⟩
+      have hfm := sizeL_filterMap_andOf _ hne'
+      cases hor : orOf ((clauses.map (keptOf R)).filterMap andOf) with
+      | none =>
+        simp only [hor, Option.some.injEq] at h; subst h
+        omega
+      | some o =>
+        simp only [hor, Option.some.injEq] at h; subst h
+        have ho := orOf_size _ o hor
+        simp only [P.size, houter, ho, hfm]
+        omega
+
+theorem shared_nodup (c0 : List P) (others : List (List P)) (h : c0.Nodup) : (shared c0 others).Nodup :=
+  List.Nodup.sublist List.filter_sublist h
+
+theorem sizeL_pos_of_andOf (R : List P) (q : P) (h : andOf R = some q) : 0 < sizeL R := by
+  cases R with
+  | nil => simp [andOf] at h
+  | cons r rs => rw [sizeL_cons]; have := size_pos r; omega
+
 end Dask.OrRewrite
